@@ -144,17 +144,23 @@ Record vvariant := {
   vv_initial_target_optional : bool;(* <initial><transition/> without target is not reported *)
   vv_id_required : bool;          (* a state without id attribute is a FATAL issue *)
   vv_nesting_warning_only : bool; (* state/transition elements below a wrong parent are only a WARNING *)
-  vv_empty_initial_unchecked : bool  (* initial="" is not reported *)
+  vv_empty_initial_unchecked : bool; (* initial="" is not reported *)
+  vv_hist_pseudo_target_unchecked : bool (* a <history>/<initial> element as target of a history's default transition is not reported *)
 }.
 
 Definition vv_pinned : vvariant :=
   {| vv_getstates_null := true; vv_any_parallel_ancestor := true; vv_root_initial_unchecked := true;
      vv_initial_target_optional := true; vv_id_required := true; vv_nesting_warning_only := true;
-     vv_empty_initial_unchecked := true |}.
+     vv_empty_initial_unchecked := true; vv_hist_pseudo_target_unchecked := true |}.
 Definition vv_fixed : vvariant :=
   {| vv_getstates_null := false; vv_any_parallel_ancestor := false; vv_root_initial_unchecked := false;
      vv_initial_target_optional := false; vv_id_required := false; vv_nesting_warning_only := false;
-     vv_empty_initial_unchecked := false |}.
+     vv_empty_initial_unchecked := false; vv_hist_pseudo_target_unchecked := false |}.
+(* the repaired code without patches/C19-history-default-pseudo-target.diff *)
+Definition vv_hist_unchecked : vvariant :=
+  {| vv_getstates_null := false; vv_any_parallel_ancestor := false; vv_root_initial_unchecked := false;
+     vv_initial_target_optional := false; vv_id_required := false; vv_nesting_warning_only := false;
+     vv_empty_initial_unchecked := false; vv_hist_pseudo_target_unchecked := true |}.
 
 (* ------------------------------------------------------------------ Predicates.cpp *)
 
@@ -334,7 +340,7 @@ Definition has_legal_completion (v : vvariant) (states : list el) : bool :=
 Inductive sev := Fatal | Warning | Info.
 Inductive icls :=
 | INoId | IEmptyId
-| IHistMulti | IHistNone | IHistCond | IHistEvent | IHistNoTarget | IHistDeepIllegal | IHistShallowIllegal
+| IHistMulti | IHistNone | IHistCond | IHistEvent | IHistNoTarget | IHistDeepIllegal | IHistShallowIllegal | IHistPseudoTarget
 | IUnreachable | IDuplicate
 | ITransEmptyTargets | ITransNoSuchTarget
 | IUselessHistAtomic | IUselessHistSingle
@@ -357,8 +363,11 @@ Definition seen_find (seen : seen_t) (id : bytes) : option el :=
 
 Definition id_or_empty (e : el) : bytes := match ga_id (e_attrs e) with Some i => i | None => [] end.
 
-(* lines 357-390: the <history> part of the loop over all states *)
-Definition history_issues (root state : el) (stateId : bytes) : outcome (list issue) :=
+(* <history> and <initial> elements *)
+Definition is_pseudo_tag (t : gtag) : bool := match t with GHistory | GInitial => true | _ => false end.
+
+(* lines 357-394: the <history> part of the loop over all states *)
+Definition history_issues (v : vvariant) (root state : el) (stateId : bytes) : outcome (list issue) :=
   match with_tag GTransition (kids_el state) with
   | _ :: _ :: _ => Ok [mk Fatal IHistMulti state [stateId]]
   | [] => Ok [mk Fatal IHistNone state [stateId]]
@@ -370,6 +379,8 @@ Definition history_issues (root state : el) (stateId : bytes) : outcome (list is
         | Some _ =>
             do targets <- get_target_states root t;
             Ok (flat_map (fun target =>
+                  (if negb (vv_hist_pseudo_target_unchecked v) && is_pseudo_tag (e_tag target)
+                   then [mk Fatal IHistPseudoTarget t [stateId; id_or_empty target]] else []) ++
                   if ga_deep (e_attrs state)
                   then if negb (match parent_path (e_path state) with
                                 | Some pp => is_desc (e_path target) pp | None => false end)
@@ -392,7 +403,7 @@ Definition state_step (v : vvariant) (root : el) (reachable : list (option el))
       else Ok (issues ++ [mk (if vv_id_required v then Fatal else Warning) INoId state []], seen)
   | Some [] => Ok (issues ++ [mk Fatal IEmptyId state []], seen)
   | Some stateId =>
-      do hi <- (if gtag_eqb (e_tag state) GHistory then history_issues root state stateId else Ok []);
+      do hi <- (if gtag_eqb (e_tag state) GHistory then history_issues v root state stateId else Ok []);
       let ur := if negb (mem_oel (Some state) reachable) && same_machine state root
                 then [mk Warning IUnreachable state [stateId]] else [] in
       match seen_find seen stateId with
@@ -659,7 +670,7 @@ Section Wf.
       | _ => false
       end) (with_tag GInitial all).
 
-  (* W6: <history> (with id) has exactly one unconditional default transition into the right scope *)
+  (* W6: <history> (with id) has exactly one unconditional default transition to proper states in the right scope *)
   Definition wf_history : bool :=
     forallb (fun h =>
       match ga_id (e_attrs h) with
@@ -671,6 +682,7 @@ Section Wf.
                  | None => false
                  | Some ids =>
                      targets_resolve_in ids (fun x =>
+                       negb (is_pseudo_tag (e_tag x)) &&
                        if ga_deep (e_attrs h)
                        then match parent_path (e_path h) with Some pp => is_desc (e_path x) pp | None => false end
                        else optptr_eqb (parent_path (e_path x)) (parent_path (e_path h)))
